@@ -225,6 +225,9 @@ class BaseParser:
             finally:
                 self._forward_resolving = False
 
+    def resolve_forward_types(self):
+        self.addition_type, r = resolve_forward_type(self.addition_type)
+
     def _resolve_forward_refs(self, local_vars=None, ignore_errors: bool = True):
         clear_refs = []
         resolved = False
@@ -271,8 +274,8 @@ class BaseParser:
         if resolved:
             for field in self.fields.values():
                 field.resolve_forward_refs()
-            # resolve for types
-            self.addition_type, r = resolve_forward_type(self.addition_type)
+            # resolve for types (before the references of a local parser are reset below)
+            self.resolve_forward_types()
         if self.is_local:
             # ForwardRef in local vars is not cachable
             # where typing is using a lru_cache
